@@ -22,7 +22,7 @@ ALL_STATES = ["geo1:" + c for c in CORR1] + ["geo2:" + c for c in CORR2] + ["tab
                                                                                  "single names (row table)", "single names (list)", "single names (array)", "optional sheets all omitted",
                                                                                  "optional sheets all present", "constraints used", "constraints sheet omitted"]
 ALL_STATES += ["mapping table with a purely numeric x or y column", "surface patches read back", "malformed tables given as arguments", "removed name is a substring of another cell", "sign table with row labels other than the points' labels"]
-REQUIRED_STATES = list(ALL_STATES) + ["exactly three sensors (square coordinate / direction tables)", "unknown sheet is a documented sheet name typed with other capitals / a stray blank", "sensors not aligned with a global axis (non-integer direction cosines)"]
+REQUIRED_STATES = list(ALL_STATES) + ["constraint row with coefficients summing to almost one", "exactly three sensors (square coordinate / direction tables)", "unknown sheet is a documented sheet name typed with other capitals / a stray blank", "sensors not aligned with a global axis (non-integer direction cosines)"]
 RULE = ("sensor sets of 1..12 names; coordinate/direction tables with rows permuted against the name order; mapping tables whose cells are sensor names, constraint "
         "names or 0/NaN; constraint matrices; sign tables in {-1,0,1}; one-based line/surface tables; optional sheets present/absent in every combination; "
         "single-setup name forms (row table, list, array) and multi-setup forms (padded table, list of lists) on real SingleSetup / MultiSetup_PreGER "
@@ -124,6 +124,7 @@ def tables1(rng, flat, optional):
 
 
 def tables2(rng, flat, optional, with_constraints, plane=False):
+    tables2.near_one = False
     n = len(flat)
     npts = int(rng.integers(max(1, (n + 2) // 3), max(2, n) + 2))
     while npts * (2 if plane else 3) < n + (2 if with_constraints else 0):
@@ -149,7 +150,16 @@ def tables2(rng, flat, optional, with_constraints, plane=False):
         rest = rest[nc:]
         cols = [flat[int(i)] for i in rng.permutation(n)[: int(rng.integers(1, min(n, 3) + 1))]]
         cst = pd.DataFrame(rng.integers(-2, 3, (nc, len(cols))).astype(float) / 2, index=cn, columns=cols)
-        if rng.random() < 0.3:
+        tables2.near_one = False
+        if len(cols) >= 2 and rng.random() < 0.4:
+            # interpolation weights as they are typed: 0.33 / 0.33 / 0.33, 0.6 / 0.405 - a row that sums to ALMOST one holds exactly the
+            # coefficients written there
+            w_ = [[0.33, 0.33, 0.33], [0.6, 0.405, 0.0], [0.5, 0.495, 0.0], [0.25, 0.25, 0.505]][int(rng.integers(0, 4))][: len(cols)]
+            if len(cols) == 2 and w_ == [0.33, 0.33]:
+                w_ = [0.67, 0.325]
+            cst.iloc[0, :] = w_
+            tables2.near_one = True
+        elif rng.random() < 0.3:
             cst.iat[0, 0] = np.nan
     for (i, j) in rest:
         if rng.random() < 0.3:
@@ -349,6 +359,8 @@ def run_geo(ctx, rng, which, by_args, three=False):
         check_geo2(ctx, tag, sig, setup.geo2, flat, src)
         check_mapping(ctx, setup.geo2, flat, src)
         ctx.state("constraints used" if "constraints" in src else "constraints sheet omitted")
+        if "constraints" in src and getattr(tables2, "near_one", False):
+            ctx.state("constraint row with coefficients summing to almost one")
         ctx.nontrivial((sig, tuple(flat), src["mapping"].shape))
     ctx.state(form_name)
     ctx.ev("names@flatten_sns_names")
